@@ -1,6 +1,6 @@
 (* Extract.v — extraction of the executable model to OCaml (ExtrOcamlBasic only). *)
 From Coq Require Extraction ExtrOcamlBasic.
-From RS Require Import Base Network NetSpec Tour TourSpec SchedObs Output Pipeline Transition TransSpec LocalSearch TourExactFacts OpSpec Flow.
+From RS Require Import Base Network NetSpec Tour TourSpec SchedObs Output Pipeline Transition TransSpec LocalSearch TourExactFacts OpSpec Flow LoadStmts.
 Extraction Language OCaml.
 Extraction "model.ml" load nd can_reach successors predecessors service_nodes all_service_nodes
   capacity_of total_capacity_of get_start_depot_node get_end_depot_node
@@ -16,4 +16,4 @@ Extraction "model.ml" load nd can_reach successors predecessors service_nodes al
   check_wiring check_start cycles_eqb cycles_of nids_eqb itinerary
   new_fast get_successor_of update_vehicle add_vehicle_to_own_cycle remove_vehicle add_vehicle_at_the_end
   move_vehicle replace_cycle three_opt three_opt_indices transfer_m tinv_codes not_worse same_members first_node last_node strictly_descending lex_lt net_ok_b dists_finite_b dh_dists_finite_b check_op tf_replace tf_remove tf_add_at_tail
-  build_flow_network feasible is_decomposition check_optimal pi_of flow_cost spawning_cost total_lower_bound nid_idx.
+  build_flow_network feasible is_decomposition check_optimal pi_of flow_cost spawning_cost total_lower_bound nid_idx valid_instance_b.
